@@ -429,22 +429,7 @@ fn run_pnodes(rt: &tokio::runtime::Runtime, toks: &[&str]) -> String {
             Sent::Reply(r) => canon_slots(&Ok(r)),
             Sent::Canceled => "canceled".to_string(),
         };
-        let mut lines = vec![];
-        if let Sent::Reply(r) = send_cmd(&p.handler, vec![Some(b"UMCTL".to_vec()), Some(b"INFO".to_vec())]).await {
-            find_mgr_lines(&r, &mut lines);
-        }
-        let mut sts = vec![];
-        for l in lines {
-            if l.starts_with("name:") {
-                continue;
-            }
-            // "<n> <s-e> .. <src> -> <dst> <STATE>"
-            let f: Vec<&str> = l.split(' ').collect();
-            let n: usize = f[0].parse().unwrap_or(0);
-            let rs: Vec<&str> = f[1..1 + n].to_vec();
-            sts.push(format!("{}={}", rs.join(","), state_code(f[f.len() - 1])));
-        }
-        sts.sort();
+        let sts = read_states(&p.handler).await;
         let _ = Arc::new(Mutex::new(()));
         format!(
             "nodes {} | slots {} | states {}",
@@ -455,10 +440,231 @@ fn run_pnodes(rt: &tokio::runtime::Runtime, toks: &[&str]) -> String {
     })
 }
 
+// task states as the proxy reports them (UMCTL INFO, "Migration" section): sorted "<ranges>=<state code>"
+async fn read_states(handler: &Handler) -> Vec<String> {
+    let mut lines = vec![];
+    if let Sent::Reply(r) = send_cmd(handler, vec![Some(b"UMCTL".to_vec()), Some(b"INFO".to_vec())]).await {
+        find_mgr_lines(&r, &mut lines);
+    }
+    let mut sts = vec![];
+    for l in lines {
+        if l.starts_with("name:") {
+            continue;
+        }
+        // "<n> <s-e> .. <src> -> <dst> <STATE>"
+        let f: Vec<&str> = l.split(' ').collect();
+        let n: usize = f[0].parse().unwrap_or(0);
+        let rs: Vec<&str> = f[1..1 + n].to_vec();
+        sts.push(format!("{}={}", rs.join(","), state_code(f[f.len() - 1])));
+    }
+    sts.sort();
+    sts
+}
+
+fn ranges_str(rs: &[(usize, usize)]) -> String {
+    rs.iter().map(|(a, b)| format!("{}-{}", a, b)).collect::<Vec<_>>().join(",")
+}
+
+fn node_of_proxy(p: &str) -> String {
+    // the node address used in migration metas for a peer proxy "h:port": "h:7000"
+    format!("{}:7000", p.split(':').next().unwrap_or("127.0.9.9"))
+}
+
+// one MigrationMeta per migrating range list, shared by its MIGRATING and IMPORTING entry, naming the real owners
+fn real_metas(self_addr: &str, local: &TLayout, peer: &TLayout) -> HashMap<Vec<(usize, usize)>, MigrationMeta> {
+    let mut m: HashMap<Vec<(usize, usize)>, MigrationMeta> = HashMap::new();
+    let blank = || MigrationMeta {
+        epoch: 1,
+        src_proxy_address: "127.0.9.8:5299".to_string(),
+        src_node_address: "127.0.9.8:7000".to_string(),
+        dst_proxy_address: "127.0.9.9:5299".to_string(),
+        dst_node_address: "127.0.9.9:7000".to_string(),
+    };
+    for (is_local, lay) in [(true, local), (false, peer)] {
+        for (a, srs) in lay.iter() {
+            let (proxy, node) = if is_local { (self_addr.to_string(), a.clone()) } else { (a.clone(), node_of_proxy(a)) };
+            for (t, rs) in srs {
+                if *t == 'm' {
+                    let e = m.entry(rs.clone()).or_insert_with(blank);
+                    e.src_proxy_address = proxy.clone();
+                    e.src_node_address = node.clone();
+                } else if *t == 'i' {
+                    let e = m.entry(rs.clone()).or_insert_with(blank);
+                    e.dst_proxy_address = proxy.clone();
+                    e.dst_node_address = node.clone();
+                }
+            }
+        }
+    }
+    m
+}
+
+fn tagged_real(layout: &TLayout, metas: &HashMap<Vec<(usize, usize)>, MigrationMeta>) -> HashMap<String, Vec<SlotRange>> {
+    layout
+        .iter()
+        .map(|(a, srs)| {
+            (
+                a.clone(),
+                srs.iter()
+                    .map(|(t, rs)| SlotRange {
+                        range_list: raw_range_list(rs),
+                        tag: match t {
+                            'm' => SlotRangeTag::Migrating(metas[rs].clone()),
+                            'i' => SlotRangeTag::Importing(metas[rs].clone()),
+                            _ => SlotRangeTag::None,
+                        },
+                    })
+                    .collect(),
+            )
+        })
+        .collect()
+}
+
+// seq <ver> <epoch> <self> <local> <peer> <steps>      steps: q | L<level> | D<pc|ps|cm>, comma separated
+//   ONE real proxy, ONE SETCLUSTER; then the steps in order on that same installed metadata:
+//   L<n>  open the control-connection gate to level n and wait until every local MIGRATING task shows the phase that level pins
+//         (0 PreCheck, 1 PreSwitch, 2 Scanning, 3 FinalSwitch, 4 SwitchCommitted)
+//   D<s>  send the real UMCTL PRECHECK / PRESWITCH / FINALSWITCH for every local IMPORTING task (handle_switch sets the state)
+//   q     CLUSTER NODES, CLUSTER SLOTS, the task states (UMCTL INFO) and a GET for one key of each migrating range list
+//         -> "nodes .. | slots .. | states .. | probe <ranges>=X<node>|M<proxy>|skip|.. ;.."     queries joined by " || "
+fn run_seq(rt: &tokio::runtime::Runtime, toks: &[&str]) -> String {
+    let cfgs = format!("ar=0,dr=-,mr=-,enc=c,name=1,ver={}", toks[1]);
+    let cfg = parse_cfg(&cfgs);
+    let epoch: u64 = toks[2].parse().expect("epoch");
+    let self_addr = toks[3];
+    let local_l = parse_tlayout(toks[4]);
+    let peer_l = parse_tlayout(toks[5]);
+    let metas = real_metas(self_addr, &local_l, &peer_l);
+    let local = tagged_real(&local_l, &metas);
+    let peer = tagged_real(&peer_l, &metas);
+    let local_mig: Vec<Vec<(usize, usize)>> =
+        local_l.iter().flat_map(|(_, srs)| srs.iter().filter(|(t, _)| *t == 'm').map(|(_, rs)| rs.clone())).collect();
+    let local_imp: Vec<Vec<(usize, usize)>> =
+        local_l.iter().flat_map(|(_, srs)| srs.iter().filter(|(t, _)| *t == 'i').map(|(_, rs)| rs.clone())).collect();
+    let mut all_mig: Vec<Vec<(usize, usize)>> = metas.keys().cloned().collect();
+    all_mig.sort();
+    let steps: Vec<&str> = toks[6].split(',').collect();
+    rt.block_on(async {
+        let p = new_proxy(&cfg);
+        let mut cc = ClusterConfig::default();
+        cc.migration_config.max_blocking_time = 3_600_000;
+        let r = set_cluster_cfg(&p.handler, true, epoch, local, peer, cc).await;
+        if r != "S 4f4b" {
+            return format!("setcluster-failed {}", r);
+        }
+        let mut outs: Vec<String> = vec![];
+        for st in steps {
+            if st == "q" {
+                let nodes = match send_cmd(&p.handler, vec![Some(b"CLUSTER".to_vec()), Some(b"NODES".to_vec())]).await {
+                    Sent::Reply(Resp::Bulk(BulkStr::Str(b))) => canon_nodes(&String::from_utf8_lossy(&b)),
+                    _ => "bad-reply".to_string(),
+                };
+                let slots = match send_cmd(&p.handler, vec![Some(b"CLUSTER".to_vec()), Some(b"SLOTS".to_vec())]).await {
+                    Sent::Reply(r) => canon_slots(&Ok(r)),
+                    Sent::Canceled => "canceled".to_string(),
+                };
+                let sts = read_states(&p.handler).await;
+                // while a local migrating task holds its barrier (PreBlocking / PreSwitch) every command for its source node is
+                // parked by design: no routing probe then
+                let barrier = sts.iter().any(|s| s.ends_with("=pb") || s.ends_with("=ps"))
+                    && !local_mig.is_empty()
+                    && sts.iter().any(|s| {
+                        local_mig.iter().any(|rs| {
+                            s.starts_with(&format!("{}=", ranges_str(rs))) && (s.ends_with("=pb") || s.ends_with("=ps"))
+                        })
+                    });
+                let mut probes = vec![];
+                for rs in all_mig.iter() {
+                    let slot = rs.iter().find(|(a, b)| a <= b && *a < SLOT_NUM).map(|(a, _)| *a);
+                    let out = match slot {
+                        None => "noslot".to_string(),
+                        Some(_) if barrier => "skip".to_string(),
+                        Some(sl) => {
+                            let cmd = vec![Some(b"GET".to_vec()), Some(key_for_slot(sl))];
+                            match tokio::time::timeout(std::time::Duration::from_secs(30), send_cmd(&p.handler, cmd)).await {
+                                Err(_) => "timeout".to_string(),
+                                Ok(Sent::Canceled) => "canceled".to_string(),
+                                Ok(Sent::Reply(Resp::Bulk(BulkStr::Str(b)))) => {
+                                    let t = String::from_utf8_lossy(&b).to_string();
+                                    if let Some(a) = t.strip_prefix("v@") { format!("X{}", a) } else { format!("R[{}]", t) }
+                                }
+                                Ok(Sent::Reply(Resp::Error(e))) => {
+                                    let t = String::from_utf8_lossy(&e).to_string();
+                                    if t.starts_with("MOVED ") {
+                                        format!("M{}", t.splitn(3, ' ').nth(2).unwrap_or("?"))
+                                    } else {
+                                        format!("E[{}]", t.replace(' ', "_"))
+                                    }
+                                }
+                                Ok(Sent::Reply(other)) => format!("R[{}]", resp_to_string(&other).replace(' ', "_")),
+                            }
+                        }
+                    };
+                    probes.push(format!("{}={}", ranges_str(rs), out));
+                }
+                outs.push(format!(
+                    "nodes {} | slots {} | states {} | probe {}",
+                    nodes,
+                    slots,
+                    if sts.is_empty() { "-".to_string() } else { sts.join(";") },
+                    if probes.is_empty() { "-".to_string() } else { probes.join(";") }
+                ));
+            } else if let Some(l) = st.strip_prefix('L') {
+                let level: usize = l.parse().expect("level");
+                p.gate.store(level, std::sync::atomic::Ordering::SeqCst);
+                let want = ["pc", "ps", "sc", "fs", "cm"][level.min(4)];
+                // condition-based wait (bounded): every local migrating task reports the pinned phase
+                let mut ok = false;
+                for _ in 0..30_000 {
+                    let sts = read_states(&p.handler).await;
+                    if local_mig.iter().all(|rs| sts.contains(&format!("{}={}", ranges_str(rs), want))) {
+                        ok = true;
+                        break;
+                    }
+                    tokio::time::sleep(std::time::Duration::from_millis(2)).await;
+                }
+                if !ok {
+                    return format!("phase-timeout {} after [{}]", st, outs.join(" || "));
+                }
+            } else if let Some(d) = st.strip_prefix('D') {
+                let sub = match d {
+                    "pc" => "PRECHECK",
+                    "ps" => "PRESWITCH",
+                    "cm" => "FINALSWITCH",
+                    other => panic!("cannot drive to {}", other),
+                };
+                for rs in local_imp.iter() {
+                    let arg = SwitchArg {
+                        version: UNDERMOON_MIGRATION_VERSION.to_string(),
+                        meta: MigrationTaskMeta {
+                            cluster_name: ClusterName::try_from("vc").expect("name"),
+                            slot_range: SlotRange {
+                                range_list: raw_range_list(rs),
+                                tag: SlotRangeTag::Importing(metas[rs].clone()),
+                            },
+                        },
+                    };
+                    let mut elems = vec![Some(b"UMCTL".to_vec()), Some(sub.as_bytes().to_vec())];
+                    elems.extend(arg.into_strings().into_iter().map(|s| Some(s.into_bytes())));
+                    match send_cmd(&p.handler, elems).await {
+                        Sent::Reply(Resp::Simple(_)) => (),
+                        Sent::Reply(other) => return format!("switch-failed {}", resp_to_string(&other)),
+                        Sent::Canceled => return "switch-canceled".to_string(),
+                    }
+                }
+            } else {
+                return format!("bad-step {}", st);
+            }
+        }
+        outs.join(" || ")
+    })
+}
+
 pub fn run_case(rt: &tokio::runtime::Runtime, toks: &[&str]) -> String {
     match toks[0] {
         "nodes" => run_nodes(toks),
         "pnodes" => run_pnodes(rt, toks),
+        "seq" => run_seq(rt, toks),
         k => format!("unknown-kind {}", k),
     }
 }
